@@ -150,13 +150,17 @@ Qed.
 
 Lemma szof_app_old : forall sizes x id a, szof sizes id = Some a -> szof (sizes ++ x) id = Some a.
 Proof.
-  intros sizes x id a H. unfold szof in *. rewrite nth_error_app1; [exact H|]. apply nth_error_Some. congruence.
+  intros sizes x id a H. unfold szof in *. destruct (id <? N.of_nat (length sizes)) eqn:E; [|discriminate H].
+  apply N.ltb_lt in E. replace (id <? N.of_nat (length (sizes ++ x))) with true by (symmetry; apply N.ltb_lt; rewrite app_length; lia).
+  rewrite nth_error_app1; [exact H|]. apply nth_error_Some. congruence.
 Qed.
 Lemma szof_lt : forall sizes id a, szof sizes id = Some a -> id < N.of_nat (length sizes).
 Proof.
-  intros sizes id a H. unfold szof in H. assert (N.to_nat id < length sizes)%nat by (apply nth_error_Some; congruence). lia.
+  intros sizes id a H. unfold szof in H. destruct (id <? N.of_nat (length sizes)) eqn:E; [|discriminate H]. apply N.ltb_lt in E. exact E.
 Qed.
 Lemma szof_new : forall sizes sz, szof (sizes ++ [sz]) (N.of_nat (length sizes)) = Some sz.
 Proof.
-  intros. unfold szof. rewrite Nat2N.id. rewrite nth_error_app2; [|lia]. rewrite Nat.sub_diag. reflexivity.
+  intros. unfold szof. replace (N.of_nat (length sizes) <? N.of_nat (length (sizes ++ [sz]))) with true
+    by (symmetry; apply N.ltb_lt; rewrite app_length; cbn [length]; lia).
+  rewrite Nat2N.id. rewrite nth_error_app2; [|lia]. rewrite Nat.sub_diag. reflexivity.
 Qed.
